@@ -125,8 +125,12 @@ Definition observed_adjs (thr : nat) (reads : list dna) : list dna :=
 Definition adj_mer (x y : dna) : dna := x ++ [last y 0%N].
 Definition oseq_l (seqs : list dna) (v : nat) (d : dir) : dna :=
   match d with DLeft => nth v seqs [] | DRight => rc (nth v seqs []) end.
+(* the (K+1)-mer of an edge, read on the strand of the source node: leaving through the left side one travels
+   on the reverse strand, so the mer spelled in the direction of travel is reverse-complemented back (this only
+   matters in stranded mode; unstranded, canonicalisation identifies the two) *)
 Definition edge_mer (seqs : list dna) (u : nat) (s : dir) (l : link) : dna :=
-  adj_mer (last_kmer K (oseq_l seqs u (dflip s))) (first_kmer K (oseq_l seqs (fst (fst l)) (snd (fst l)))).
+  let m := adj_mer (last_kmer K (oseq_l seqs u (dflip s))) (first_kmer K (oseq_l seqs (fst (fst l)) (snd (fst l)))) in
+  match s with DRight => m | DLeft => rc m end.
 Definition graph_adjs (seqs : list dna) (E : list (nat * dir * list link)) : list dna :=
   map (canon_s stranded)
       (flat_map (kmers (S K)) seqs ++ flat_map (fun e => map (edge_mer seqs (fst (fst e)) (snd (fst e))) (snd e)) E).
